@@ -3,6 +3,7 @@
 package main
 
 import (
+	"encoding/json"
 	"fmt"
 	"os"
 	"path/filepath"
@@ -107,7 +108,9 @@ func resolve(c Content, q string) *fileDef {
 	return best
 }
 
-func prov(f *fileDef, dev string) string { return strings.TrimSuffix(strings.TrimSuffix(f.name, ".json"), ".yaml") + "-" + dev }
+func prov(f *fileDef, dev string) string {
+	return strings.TrimSuffix(strings.TrimSuffix(f.name, ".json"), ".yaml") + "-" + dev
+}
 
 func fileIndex(c Content, f *fileDef) int {
 	for i := range c.Files {
@@ -240,6 +243,24 @@ func (v *env) eval1(c Case) hx.Result {
 		if ok, where := refmodel.OCIEqual(want, got); !ok {
 			// order-sensitive comparison is intended for mounts, hooks and cgroup rules; env/devices/gids compare by key
 			return fail("composition-differs:"+where+":"+shapeOf(c), "injection result differs from applying the combined edit list, in "+where, refmodel.Normalise(want), refmodel.Normalise(got))
+		}
+		// "exactly as applying one combined edit list": the expected value was produced by one real
+		// Apply of the combined list, so the two OCI specs must also be identical member by member,
+		// list order included (e.g. the order of process.env)
+		jw, _ := json.Marshal(want)
+		jg, _ := json.Marshal(got)
+		if string(jw) != string(jg) {
+			where := "?"
+			var mw, mg map[string]json.RawMessage
+			_ = json.Unmarshal(jw, &mw)
+			_ = json.Unmarshal(jg, &mg)
+			for _, k := range []string{"process", "mounts", "hooks", "linux", "annotations", "root", "hostname"} {
+				if string(mw[k]) != string(mg[k]) {
+					where = k
+					break
+				}
+			}
+			return fail("composition-differs-in-order:"+where+":"+shapeOf(c), "injection result equals the combined application only up to list order, in "+where, json.RawMessage(jw), json.RawMessage(jg))
 		}
 		return hx.Result{Outcome: fmt.Sprintf("equal:%d-devices", len(c.Request)), Nontrivial: len(c.Request) > 0}
 	})
